@@ -61,6 +61,11 @@ def natGe (n : Nat) : NatInf → Bool
   | .inf => false
   | .fin k => decide (k ≤ n)
 
+/-- `n > m` -/
+def natGt (n : Nat) : NatInf → Bool
+  | .inf => false
+  | .fin k => decide (k < n)
+
 def optNatOr (v : Option Nat) (d : NatInf) : NatInf :=
   match v with
   | none => d
@@ -85,6 +90,8 @@ structure Env (X Y : Type) where
   vle : X → X → Bool
   /-- Python `a > b` on non-NaN floats -/
   gt : Y → Y → Bool
+  /-- Python `a >= b` on non-NaN floats -/
+  ge : Y → Y → Bool
   /-- `numpy.isfinite` on non-NaN floats -/
   fin : Y → Bool
   /-- `numpy.isneginf` on non-NaN floats -/
@@ -200,6 +207,11 @@ def callObj (env : Env X Y) (x : X) : PM X Y (PyF Y) := fun s =>
 /-- `a > b` on Python floats (False as soon as one side is NaN) -/
 def pyGt (env : Env X Y) : PyF Y → PyF Y → Bool
   | .val a, .val b => env.gt a b
+  | _, _ => false
+
+/-- `a >= b` on Python floats -/
+def pyGe (env : Env X Y) : PyF Y → PyF Y → Bool
+  | .val a, .val b => env.ge a b
   | _, _ => false
 
 def pyIsFinite (env : Env X Y) : PyF Y → Bool
